@@ -51,3 +51,15 @@ Definition c_perm2 (T : tables) : bool :=
 Definition tables_ok (p k f g : Z) (T : tables) : bool :=
   c_basic p k T && c_list T && c_red p k f && c_chain p k f g T && c_mo p k T && c_plus p k T && c_perm1 T && c_perm2 T.
 
+
+(* ------------------------------------------------------------ the defining polynomial and the generator themselves,
+   decided by the verified checkers of coq/C09 (irreducible_b: no monic divisor of degree 1..k/2, proved sound and complete
+   against the definition; brute_order: least exponent with g^m = 1 modulo f) and by trial-division primality. *)
+From C09 Require Model.
+From C05 Require PrimeB.
+Definition fpoly (p k f : Z) : list Z := C09.Model.red p (digits p (S (Z.to_nat k)) f).
+Definition gpoly (p k g : Z) : list Z := C09.Model.red p (digits p (Z.to_nat k) g).
+Definition fg_ok (p k f g : Z) : bool :=
+  PrimeB.primeb p && (1 <=? k) && (1 <=? p ^ k - 1) &&
+  (C09.Model.deg (fpoly p k f) =? k) && C09.Model.irreducible_b p (fpoly p k f) &&
+  (C09.Model.brute_order p (gpoly p k g) (fpoly p k f) (p ^ k - 1) =? p ^ k - 1).
